@@ -11,12 +11,14 @@ def recursive(params, returns):
     return deco
 
 
-def opaque(params, returns, reveal=()):
+def opaque(params, returns, reveal=(), inline_in=()):
     """Mark a (non-recursive) specification function as opaque: an uninterpreted
     function everywhere except while verifying the functions named in `reveal`,
     where its definition is unfolded (Dafny's opaque / reveal)."""
     def deco(f):
         f._pyvc_recursive = (list(params), returns)
         f._pyvc_reveal = tuple(reveal)
+        # functions in whose verification the definition is simply inlined (also under quantifiers)
+        f._pyvc_inline_in = tuple(inline_in)
         return f
     return deco
